@@ -40,11 +40,36 @@ func (w *World) lemmaParamVals(lem *Lemma, suffix string) ([]SVal, []NamedTerm) 
 			s := SSlice{Arr: Var(n+".arr", ArrSort(IdxSort, ty.Elem.scalarSort())), Off: Var(n+".off", IdxSort), Len: Var(n+".len", IdxSort), Ty: ty}
 			args = append(args, s)
 			model = append(model, NamedTerm{p.Name + ".len", s.Len})
+		case ty.K == TSlice && ty.Elem.K == TSlice && ty.Elem.Elem.scalarSort() != nil:
+			// a slice of slices / of strings: element headers (reg, off, len per element), the outer
+			// offset and length, and the whole inner heap
+			es := ty.Elem.Elem.scalarSort()
+			a := []*Term{Var(n+".hreg", ArrSort(IdxSort, RegSort)), Var(n+".hoff", ArrSort(IdxSort, IdxSort)), Var(n+".hlen", ArrSort(IdxSort, IdxSort)),
+				Var(n+".off", IdxSort), Var(n+".len", IdxSort), Var(n+".inner", ArrSort(RegSort, ArrSort(IdxSort, es)))}
+			s := nestedFromArgs(a, ty).(SSlice)
+			args = append(args, s)
+			model = append(model, NamedTerm{p.Name + ".len", s.Len})
 		default:
 			sfail("lemma %s: unsupported parameter type %q", lem.Name, p.Type)
 		}
 	}
 	return args, model
+}
+
+// nestedWF: the element headers of a slice of slices / strings are well-formed
+// (0 <= len, 0 <= off, both <= 2^48), for elements 0 <= k < len
+func nestedWF(s SSlice) *Term {
+	if s.Arr != nil || s.st == nil || s.Ty == nil || s.Ty.Elem.K != TSlice {
+		return True
+	}
+	e := s.Ty.Elem
+	k := BoundVar("k", IdxSort, "s64")
+	pos := BVBin("bvadd", s.Off, Mark(k, "s64"))
+	ln := Select(Select(s.st.heap(heapKey(e, "len"), IdxSort), Mark(s.Reg, "reg")), pos)
+	of := Select(Select(s.st.heap(heapKey(e, "off"), IdxSort), Mark(s.Reg, "reg")), pos)
+	z, mx := BVInt(0, 64), BVInt(int64(1)<<48, 64)
+	return Forall([]*Term{k}, Implies(And(BVCmp("bvsle", z, k), BVCmp("bvslt", k, s.Len)),
+		And(BVCmp("bvsle", z, ln), BVCmp("bvsle", ln, mx), BVCmp("bvsle", z, of), BVCmp("bvsle", of, mx))))
 }
 
 // LemmaObligation builds the proof obligation of a lemma.
@@ -77,6 +102,9 @@ func (w *World) LemmaObligation(lem *Lemma) (o *Obligation, err error) {
 		if s, ok := a.(SSlice); ok {
 			hyps = append(hyps, BVCmp("bvsle", BVInt(0, 64), s.Len), BVCmp("bvsle", BVInt(0, 64), s.Off),
 				BVCmp("bvsle", s.Len, BVInt(int64(1)<<60, 64)), BVCmp("bvsle", s.Off, BVInt(int64(1)<<60, 64)))
+			if wf := nestedWF(s); wf != True {
+				hyps = append(hyps, wf)
+			}
 		}
 	}
 	for _, c := range lem.Clauses {
@@ -94,16 +122,35 @@ func (w *World) LemmaObligation(lem *Lemma) (o *Obligation, err error) {
 			}
 			ens = append(ens, b.T)
 		case "use":
-			call, ok := c.E.(*ECall)
+			uev := ev
+			var uvars []*Term
+			ue := c.E
+			if q, ok := ue.(*EQuant); ok && q.Forall {
+				// use forall v T :: LEMMA(args): a schema over integer variables
+				for _, p := range q.Vars {
+					ty := tyFromName(p.Type)
+					if ty == nil || ty.K != TInt {
+						sfail("quantified use needs integer variables")
+					}
+					bv := BoundVar(p.Name, BV(ty.W), tyKey(ty))
+					uvars = append(uvars, bv)
+					uev = uev.with(p.Name, SInt{bv, ty})
+				}
+				ue = q.Body
+			}
+			call, ok := ue.(*ECall)
 			if !ok {
 				sfail("use LEMMA(args)")
 			}
 			if j := w.lemmaIndex(call.Fn); j < 0 || j >= idx {
 				sfail("lemma %s may only use lemmas defined before it (%s)", lem.Name, call.Fn)
 			}
-			t, e2 := w.lemmaInstance(ev, call)
+			t, e2 := w.lemmaInstance(uev, call)
 			if e2 != nil {
 				sfail("%v", e2)
+			}
+			if len(uvars) > 0 {
+				t = Forall(uvars, t)
 			}
 			hyps = append(hyps, t)
 			w.noteLemmaUse("lemma:"+lem.Name, call.Fn)
